@@ -54,6 +54,17 @@ impl<T: Heap> Heap for Box<T> {
         size_of::<T>() + (**self).heap()
     }
 }
+// shared pointers: the pointee and what it owns (the two reference counters are not counted)
+impl<T: Heap> Heap for std::sync::Arc<T> {
+    fn heap(&self) -> usize {
+        size_of::<T>() + (**self).heap()
+    }
+}
+impl<T: Heap> Heap for std::rc::Rc<T> {
+    fn heap(&self) -> usize {
+        size_of::<T>() + (**self).heap()
+    }
+}
 
 fn footprint<T: Heap>(v: &T) -> usize {
     size_of::<T>() + v.heap()
@@ -82,7 +93,7 @@ fn check<T: Heap + MemoryEstimator + std::fmt::Debug>(shape: &'static str, v: T)
     (format!("{:?}", v).chars().take(120).collect(), v.estimate_memory(), footprint(&v), shape)
 }
 
-const N_SHAPES: usize = 26;
+const N_SHAPES: usize = 34;
 
 fn build(d: &mut Dec) -> (String, usize, usize, &'static str) {
     match d.choose(N_SHAPES) {
@@ -111,6 +122,14 @@ fn build(d: &mut Dec) -> (String, usize, usize, &'static str) {
         22 => check("Option<Box<String>>", if d.chance(2, 3) { Some(Box::new(gs(d))) } else { None }),
         23 => check("Vec<(String, u8)>", gv(d, |d| (gs(d), d.byte()))),
         24 => check("Box<(String, Vec<u32>)>", Box::new((gs(d), gv(d, |d| d.u32())))),
+        25 => check("f32", f32::from_bits(d.u32() & 0x7f7f_ffff)),
+        26 => check("(i8, u128)", (d.byte() as i8, d.u64() as u128)),
+        27 => check("()", ()),
+        28 => check("Arc<String>", std::sync::Arc::new(gs(d))),
+        29 => check("Rc<Vec<String>>", std::rc::Rc::new(gv(d, gs))),
+        30 => check("Option<Arc<String>>", if d.chance(2, 3) { Some(std::sync::Arc::new(gs(d))) } else { None }),
+        31 => check("Vec<Box<String>>", gv(d, |d| Box::new(gs(d)))),
+        32 => check("(String, Option<Vec<u64>>, Result<String, String>)", (gs(d), if d.chance(1, 2) { Some(gv(d, |d| d.u64())) } else { None }, if d.chance(1, 2) { Ok::<String, String>(gs(d)) } else { Err(gs(d)) })),
         _ => check::<Result<(String, String), Vec<String>>>("Result<(String,String),Vec<String>>", if d.chance(1, 2) { Ok((gs(d), gs(d))) } else { Err(gv(d, gs)) }),
     }
 }
@@ -125,7 +144,7 @@ pub fn run_case(bytes: &[u8], _t: Tier) -> CaseOut {
     let mut d = Dec::new(bytes);
     let (repr, est, fp, shape) = build(&mut d);
     let mut out = CaseOut { key: hash_of(&(repr.clone(), shape)), ..CaseOut::default() };
-    out.nontrivial = fp > 0 && !matches!(shape, "u64" | "(bool, char)" | "Box<u64>" | "Option<u32>");
+    out.nontrivial = fp > 0 && !matches!(shape, "u64" | "(bool, char)" | "Box<u64>" | "Option<u32>" | "f32" | "(i8, u128)" | "()");
     out.classes.push("shape_checked");
     if est != fp {
         out.violation = Some(Violation {
